@@ -5,6 +5,7 @@ import (
 	"iter"
 	"math"
 	"slices"
+	"strconv"
 	"strings"
 
 	"reduction.dev/reduction/dkv/kv"
@@ -303,6 +304,21 @@ func (ll *LevelList) NewWithChangeSet(cs *ChangeSet) *LevelList {
 	nextLL.RemoveTables(cs.removals)
 
 	return nextLL
+}
+
+// NextTableID returns an ID that is greater than the ID of every table in the
+// list (table files are named after their ID).
+func (ll *LevelList) NextTableID() int64 {
+	var next int64
+	for _, level := range ll.levels {
+		for t := range level.AllTables() {
+			id, err := strconv.ParseInt(strings.TrimSuffix(t.Name(), ".sst"), 10, 64)
+			if err == nil && id >= next {
+				next = id + 1
+			}
+		}
+	}
+	return next
 }
 
 func (ll *LevelList) Diagnostics() string {
